@@ -4,20 +4,22 @@ PYTHONPATH, outputs redirected with VERIF_OUT so that /verif/evidence is untouch
 usage: run_seeded.py [--all-checks] [ids...]   -> /verif/seeded/RESULTS.json"""
 import json, os, subprocess, sys, shutil, time
 
-SEEDED = "/verif/seeded"
+BASE = os.path.dirname(os.path.dirname(os.path.abspath(__file__)))   # the /verif tree this script belongs to (a snapshot under vp run)
+SEEDED = os.path.join(BASE, "seeded")
 args = [a for a in sys.argv[1:] if not a.startswith("--")]
 all_checks = "--all-checks" in sys.argv
-manifest = json.load(open("/verif/MANIFEST.json"))
+manifest = json.load(open(os.path.join(BASE, "MANIFEST.json")))
 claimed = [c["property_id"] for c in manifest["checks"]]
 ids = args or sorted(d for d in os.listdir(SEEDED) if os.path.isdir(os.path.join(SEEDED, d)))
 resfile = os.path.join(SEEDED, "RESULTS.json")
 results = json.load(open(resfile)) if os.path.exists(resfile) else {}
+head = subprocess.check_output(["git", "-C", "/repo", "rev-parse", "--short", "HEAD"], text=True).strip()
 for mid in ids:
     d = os.path.join(SEEDED, mid)
     meta = json.load(open(os.path.join(d, "meta.json")))
     if not meta.get("verified", {}).get("confirmed"):
         continue
-    if mid in results and results[mid].get("caught_by") and "--redo" not in sys.argv:
+    if mid in results and results[mid].get("caught_by") and results[mid].get("repo_head_run") == head and "--redo" not in sys.argv:
         continue
     prop = mid.split("-")[0]
     wt = f"/tmp/mutrun_{mid}"
@@ -36,14 +38,14 @@ for mid in ids:
         caught = {}
         for p in order:
             t0 = time.time()
-            r = subprocess.run(["/verif/check", p, "--tier", "quick"], env=env, capture_output=True, text=True, timeout=3600)
+            r = subprocess.run([os.path.join(BASE, "check"), p, "--tier", "quick"], env=env, capture_output=True, text=True, timeout=3600)
             viol = [l for l in r.stdout.splitlines() if l.startswith("VIOLATION")]
             caught[p] = dict(rc=r.returncode, violations=len(viol), wall=round(time.time() - t0, 1),
                              first=(r.stdout.splitlines()[r.stdout.splitlines().index(viol[0]) + 1][:300] if viol else ""),
                              err=(r.stderr[-300:] if r.returncode == 2 else ""))
             if r.returncode == 1 and not all_checks:
                 break
-        results[mid] = dict(property=prop, repo_head=meta["verified"]["repo_head"], checks=caught,
+        results[mid] = dict(property=prop, repo_head_run=head, checks=caught,
                             caught_by=[p for p, v in caught.items() if v["rc"] == 1],
                             machinery_failure=[p for p, v in caught.items() if v["rc"] == 2])
         print(mid, "caught by", results[mid]["caught_by"], "| failures:", results[mid]["machinery_failure"], flush=True)
